@@ -331,6 +331,8 @@ def base_cfgs(level, ctx):
         cfgs.append(dict(sampler="ns", model="vec", seed=seed))
         cfgs.append(dict(sampler="ins", model="vec", seed=seed, flows="fake"))
     cfgs.append(dict(sampler="ns", model="scalar", seed=seeds[0], max_iteration=120))
+    # reparameterisations declared on the model (per parameter); the same configuration objects serve every run of a process
+    cfgs.append(dict(sampler="ns", model="vecr", seed=seeds[0], max_iteration=120, edge=True))
     cfgs.append(dict(sampler="ins", model="vec", seed=seeds[-1], flows="real"))
     if level != "quick":
         cfgs.append(dict(sampler="ins", model="scalar", seed=seeds[0], flows="fake"))
@@ -396,6 +398,11 @@ def digest_matrix(ctx, level, t):
             if r[0] != "ok":
                 if role in ("unknown-size-pool", "observe-reused-instance"):
                     ctx.case(("run", tag, role, "err"), True, None, kind="run-error:" + role)
+                    continue
+                if role in ("again", "twice-fresh-model"):
+                    ctx.oracle_fail(f"seeded-run.same-config.{role}.raised.{tag}",
+                                    "a repeat of the base run (same seed, same model definition, the same configuration objects) "
+                                    f"raised: {r[1][:300]}", case)
                     continue
                 ctx.oracle_fail(f"run-fails.{role}.{setting_name(cfg)}.{tag}",
                                 f"run raised with a supported parallelisation setting: {r[1][:300]}", case)
